@@ -341,7 +341,7 @@ Record ccase := mkCase {
   k_esums : list esum_obs
 }.
 
-Definition same_names (a b : list str) : bool := forallb (fun x => mem x b) a && forallb (fun x => mem x a) b.
+Definition same_names (a b : list str) : bool := if forallb (fun x => mem x b) a then forallb (fun x => mem x a) b else false.
 
 Fixpoint find_parse (t : list parse_entry) (s : str) : option parse_entry :=
   match t with [] => None | (P e _ _ _ as p) :: r => if str_eqb e s then Some p else find_parse r s end.
@@ -356,13 +356,20 @@ Fixpoint o_valid_go (t : list (str * outcome bool)) (s : str) : outcome bool :=
 Fixpoint o_lim_go (t : list lim_entry) (s : str) (sc : list str) (i : nat) : outcome pyv :=
   match t with
   | [] => Raise EUnrecorded
-  | L e sc' i' o :: r => if Nat.eqb i i' && str_eqb e s && same_names sc sc' then o else o_lim_go r s sc i
+  | L e sc' i' o :: r =>
+      if Nat.eqb i i' then (if str_eqb e s then (if same_names sc sc' then o else o_lim_go r s sc i) else o_lim_go r s sc i)
+      else o_lim_go r s sc i
   end.
 Fixpoint o_term_go (t : list term_entry) (s : str) (sc : list str) (v : str) (n : Z) (i : nat) : outcome (list Q) :=
   match t with
   | [] => Raise EUnrecorded
   | T n' i' e v' sc' o :: r =>
-      if Z.eqb n n' && Nat.eqb i i' && str_eqb e s && str_eqb v v' && same_names sc sc' then o
+      if Z.eqb n n' then
+        (if Nat.eqb i i' then
+           (if str_eqb e s then
+              (if str_eqb v v' then (if same_names sc sc' then o else o_term_go r s sc v n i) else o_term_go r s sc v n i)
+            else o_term_go r s sc v n i)
+         else o_term_go r s sc v n i)
       else o_term_go r s sc v n i
   end.
 
@@ -542,6 +549,24 @@ def num_pyv(x):
     return '(PNum (XFin %s))' % q(Fraction(x))
 
 
+_DEFAULT_RESERVED = None
+
+
+def default_reserved():
+    """names with a meaning in a default SumGrader (functions, constants): emitted once in the header"""
+    global _DEFAULT_RESERVED
+    if _DEFAULT_RESERVED is None:
+        from mitxgraders import SumGrader
+        g = SumGrader(answers=dict(zip(FIELDS, ['1', '2', 'n', 'n'])))
+        _DEFAULT_RESERVED = list(g.functions.keys()) + list(g.random_funcs.keys()) + list(g.constants.keys())
+    return _DEFAULT_RESERVED
+
+
+def header():
+    return (HEADER + 'Definition default_reserved : list str :=\n  [%s].\n' % ';\n   '.join(strl(x) for x in default_reserved())
+            + AGREE_DEFS)
+
+
 def case_term(run):
     """-> (Coq term | None, info dict)"""
     spec, rec = run['spec'], run['rec']
@@ -620,8 +645,8 @@ def case_term(run):
                 continue
             a, av, asc = acc, value, scale
             s_, sv, ssc = sums[(i, False)]
-            if a and s_ and len(a) != len(s_):
-                shapes_ok = False
+            if (len(a) or 2) != (len(s_) or 2):
+                shapes_ok = False      # number against array (an empty sum is the integer 0): the comparer's shape errors are not modelled
                 continue
             n_ = max(len(a), len(s_))
             a2 = list(a) + [Fraction(0)] * (n_ - len(a))
@@ -641,12 +666,13 @@ def case_term(run):
             obs = None
         info['boundary'] = skip
         inputs = as_inputs(spec['inputs'])
-        cfg_term = ('(mkConfig [%s] [%s] [%s] %s %s %s %d %d %s [%s])' % (
+        cfg_term = ('(mkConfig [%s] [%s] [%s] %s %s %s %d %d %s %s)' % (
             ';'.join('None' if p is None else '(Some %s%%Z)' % zl(p) for p in positions),
             ';'.join(nm.s(a) for a in cfg['answers']),
             ';'.join(nm.s(v) for v in cfg.get('instructor_vars', [])),
             num_pyv(cfg.get('even_odd', 0)), num_pyv(cfg.get('infty_val', 1e3)), num_pyv(cfg.get('infty_val_fact', 80)),
-            cfg.get('samples', 2), cfg.get('failable_evals', 0), nm.sc(scope), ';'.join(nm.s(x) for x in reserved)))
+            cfg.get('samples', 2), cfg.get('failable_evals', 0), nm.sc(scope),
+            'default_reserved' if reserved == default_reserved() else '[%s]' % ';'.join(nm.s(x) for x in reserved)))
         body = ('mkCase %s %s [%s]\n     [%s]\n     [%s]\n     [%s]\n     [%s]\n     %s %s\n     [%s]' % (
             cfg_term, tol_term(tol), ';'.join(nm.s(x) for x in inputs),
             '; '.join(parse_entries), '; '.join(valid_entries), ';\n      '.join(lims), ';\n      '.join(terms),
@@ -689,7 +715,7 @@ def render_limit(rng, l, variables):
     if r < 0.8:
         return '%d+2' % (v - 2)
     if r < 0.9 and variables:
-        return '%d+%s-%s' % (v, variables[0], variables[0])
+        return '%s-%s+(%d)' % (variables[0], variables[0], v)
     return '(%d)*1' % v
 
 
@@ -786,15 +812,30 @@ def transform(rng, author, entered, eo, variables, infinite):
     return (lo, hi, tree, var), '+'.join(label)
 
 
-def value_case(rng, key, a, b, eo, tier, infinite=None):
+def make_pool(rng, size):
+    """summand pool: (exact, variables, cfg fragment, tree); reused across the grid so that the parser cache is hit"""
+    pool = []
+    for _ in range(size):
+        exact = rng.random() < 0.55
+        variables, cfg = pick_env(rng, exact)
+        kind = rng.choice(['real', 'real', 'complex', 'vector'])
+        pool.append((exact, variables, cfg, sx.gen_summand(rng, kind, variables, exact)))
+    return pool
+
+
+def value_case(rng, key, a, b, eo, tier, infinite=None, pool=None):
     exact = rng.random() < 0.55 and infinite is None
     variables, cfg = pick_env(rng, exact)
     kind = rng.choice(['real', 'real', 'complex', 'vector'])
+    pooled = None
+    if pool is not None and infinite is None:
+        pooled = rng.choice(pool)
+        exact, variables, cfg = pooled[0], pooled[1], copy.deepcopy(pooled[2])
     avar = rng.choice(VAR_NAMES[:6])
     cut = 1000
     if infinite is None:
         lo, hi = ('int', a), ('int', b)
-        tree = sx.gen_summand(rng, kind, variables, exact)
+        tree = pooled[3] if pooled else sx.gen_summand(rng, kind, variables, exact)
     else:
         direction, fin = infinite
         cut = rng.choice(CUTS)
@@ -944,7 +985,7 @@ def author_error_cases(rng, count):
 def position_cases(rng, tier):
     out = []
     answers = ['2', '6', 'n^2+1', 'n']
-    fields = ['6', '2', 'k^2+1', 'k']
+    fields = ['1+1', '6.0', 'k^2+1', 'k']
     # every subset of the four fields, in two orders each
     for mask in range(16):
         entered = [f for f in range(4) if mask >> f & 1]
@@ -1078,8 +1119,8 @@ def oracle(run):
                              ('author' if e['k'] % 2 == 0 else 'student', i, got[:30], want[:30]),
                              site='SumGrader.perform_summation', trigger='index set')
                         return fails
-                if (sx.is_vec(A) != sx.is_vec(S)) and A != sx.ZERO and S != sx.ZERO:
-                    boundary = True
+                if sx.is_vec(A) != sx.is_vec(S):
+                    boundary = True      # an empty sum (the integer 0) against an array: outside the property
                     continue
                 D = sx.v_add(A, sx.v_neg(S))
                 d2, a2 = sx.norm2(D), sx.norm2(A)
@@ -1216,9 +1257,10 @@ def generate(ctx):
     # the property's grid: every limit pair in [-12, 12] in both orders x even_odd
     grid = [(a, b, eo) for a in range(-12, 13) for b in range(-12, 13) for eo in (0, 1, 2)]
     reps = 1 if tier == 'quick' else 3
+    pool = make_pool(rng, 60 if tier == 'quick' else 400)
     for rep in range(reps):
         for (a, b, eo) in grid:
-            specs.append(value_case(rng, 'grid:%d:%d:%d:%d' % (a, b, eo, rep), a, b, eo, tier))
+            specs.append(value_case(rng, 'grid:%d:%d:%d:%d' % (a, b, eo, rep), a, b, eo, tier, pool=pool))
     n_inf = 150 if tier == 'quick' else 600
     for j in range(n_inf):
         direction = rng.choice([1, 1, -1, 0])
@@ -1237,65 +1279,93 @@ CODES = {1: 'final outcome differs', 2: 'evaluation points differ', 3: 'sum diff
          4: 'model fails where the implementation returned', 5: 'regenerated plan violates the index-set specification'}
 
 
+def process(spec):
+    """one grader call: run, oracle, Coq term.  Returns plain data (runs in a worker process)."""
+    run_ = run_case(spec)
+    st, r = run_['outcome']
+    out = {'key': spec['key'], 'kind': spec['kind'], 'witnesses': oracle(run_), 'oracle_boundary': bool(run_.get('oracle_boundary')),
+           'ref_error': 'ref_error' in run_, 'status': st,
+           'n_terms': sum(1 for e in run_['rec'].esums for x in e['evals'] if not x['allow_inf'])}
+    if st == 'ret':
+        out['ok'] = r.get('ok') is True if isinstance(r, dict) else None
+        out['result'] = {k: r.get(k) for k in ('ok', 'grade_decimal', 'msg')} if isinstance(r, dict) else repr(r)
+    else:
+        out['err'] = err_tag(r) if st == 'exc' else 'timeout'
+    term, info = case_term(run_)
+    out['term'], out['corr_boundary'], out['unencodable'] = term, info.get('boundary', False), info.get('unencodable')
+    return out
+
+
+def process_chunk(specs):
+    return [process(s) for s in specs]
+
+
+def run_all(specs, workers=12):
+    import multiprocessing
+    from concurrent.futures import ProcessPoolExecutor
+    default_reserved()
+    chunks = [specs[i:i + 24] for i in range(0, len(specs), 24)]
+    try:
+        with ProcessPoolExecutor(max_workers=workers, mp_context=multiprocessing.get_context('fork')) as ex_:
+            outs = list(ex_.map(process_chunk, chunks))
+    except Exception as e:          # no fork / pool failure: run in-process
+        core.log('C19: process pool unavailable (%r), running in-process' % (e,))
+        outs = [process_chunk(c) for c in chunks]
+    return [o for chunk in outs for o in chunk]
+
+
 def run(ctx):
     res = core.Result()
     res.rule = ('one case per grader call SumGrader(cfg)(None, inputs); a case is non-trivial when it is a value case that '
-                'reached a verdict with at least one summand evaluation (distinct by limits, parity, summand text, inputs)')
+                'reached a verdict with at least one summand evaluation (distinct by configuration and inputs)')
     specs = generate(ctx)
+    outs = run_all(specs)
     terms, metas = [], []
     dist = {'value': 0, 'student-error': 0, 'author-error': 0, 'positions': 0, 'unencodable': 0, 'oracle_boundary': 0,
             'ref_errors': 0, 'verdict_true': 0, 'verdict_false': 0, 'raised': 0, 'terms_evaluated': 0}
     labels, errkinds = {}, {}
-    for spec in specs:
-        run_ = run_case(spec)
-        st, r = run_['outcome']
+    for spec, o in zip(specs, outs):
         dist[spec['kind']] += 1
-        # --- property oracle on the implementation
         res.oracle_evals += 1
-        for w in oracle(run_):
-            res.witnesses.append(w)
-        if run_.get('oracle_boundary'):
+        res.witnesses += o['witnesses']
+        if o['oracle_boundary']:
             dist['oracle_boundary'] += 1
             res.boundary += 1
-        if 'ref_error' in run_:
-            dist['ref_errors'] += 1
-        n_terms = sum(1 for e in run_['rec'].esums for x in e['evals'] if not x['allow_inf'])
-        dist['terms_evaluated'] += n_terms
-        if st == 'ret':
-            dist['verdict_true' if r.get('ok') is True else 'verdict_false'] += 1
-            if spec['kind'] == 'value' and n_terms:
+        dist['ref_errors'] += 1 if o['ref_error'] else 0
+        dist['terms_evaluated'] += o['n_terms']
+        if o['status'] == 'ret':
+            dist['verdict_true' if o['ok'] else 'verdict_false'] += 1
+            if spec['kind'] == 'value' and o['n_terms']:
                 res.nontrivial.add((spec['key'], tuple(spec['cfg']['answers']), tuple(as_inputs(spec['inputs']))))
         else:
             dist['raised'] += 1
-            t = err_tag(r) if st == 'exc' else 'timeout'
-            errkinds[t] = errkinds.get(t, 0) + 1
+            errkinds[o['err']] = errkinds.get(o['err'], 0) + 1
         if spec['kind'] == 'value':
             lab = spec['meta']['label']
             labels[lab] = labels.get(lab, 0) + 1
-        # --- correspondence
-        term, info = case_term(run_)
-        if term is None:
+        if o['term'] is None:
             dist['unencodable'] += 1
             continue
-        if info['boundary']:
+        if o['corr_boundary']:
             res.boundary += 1
-        terms.append(term)
+        terms.append(o['term'])
         metas.append(spec)
-        if len(res.samples) < 4 and spec['kind'] == 'value' and st == 'ret' and spec['key'].startswith('grid'):
+        if len(res.samples) < 4 and spec['kind'] == 'value' and o['status'] == 'ret' and spec['key'].startswith('grid'):
             res.samples.append({'answers': spec['cfg']['answers'], 'even_odd': spec['cfg'].get('even_odd', 0),
-                                'inputs': spec['inputs'], 'transformation': spec['meta']['label'], 'implementation': r,
+                                'inputs': spec['inputs'], 'transformation': spec['meta']['label'], 'implementation': o['result'],
                                 'model': 'same outcome, sums and evaluation points (checked in Coq)'})
     dist['transformations'] = dict(sorted(labels.items(), key=lambda kv: -kv[1])[:12])
     dist['error_classes'] = errkinds
     res.distribution = dist
-    n, failing, errors = core.eval_agreement('c19', HEADER + AGREE_DEFS, 'case_ok', terms, shard=max(60, len(terms) // 16 + 1),
+    res.exhaustive = False
+    n, failing, errors = core.eval_agreement('c19', header(), 'case_ok', terms, shard=max(40, len(terms) // 32 + 1),
                                              case_type='ccase')
     res.programs = n
     res.corr_errors += errors
     if failing:
         # second pass: which comparison failed
         sub = [terms[i] for i in failing[:40]]
-        text = (HEADER + AGREE_DEFS + '\nDefinition verif_cases : list ccase :=\n  [ %s ].\n' % '\n  ; '.join(sub) +
+        text = (header() + '\nDefinition verif_cases : list ccase :=\n  [ %s ].\n' % '\n  ; '.join(sub) +
                 'Eval vm_compute in (map case_code verif_cases).\n')
         out = core.run_case_files([('c19_codes', text)])[0][2]
         m = re.search(r'=\s*\[(.*?)\]\s*:\s*list nat', out, re.S)
